@@ -71,8 +71,8 @@ def library_exception(pid, exc):
 
 def alt_environment(case):
     """One case in ~200 runs in a child interpreter whose ENVIRONMENT differs from the usual one in a way a deployment may
-    differ: started with -O (assert statements are not executed), or under the C locale without UTF-8 mode (the default
-    text encoding is ASCII).  The choice is a function of the case's seed (or stated in case['_env']), so replays, shrunk
+    differ: started with -O (assert statements are not executed), under the C locale without UTF-8 mode (the default
+    text encoding is ASCII), or with the warning filters set to ignore / to raise (-W ignore, -W error::UserWarning).  The choice is a function of the case's seed (or stated in case['_env']), so replays, shrunk
     cases and witnesses run the same way."""
     if not isinstance(case, dict):
         return None
@@ -80,8 +80,12 @@ def alt_environment(case):
         return case['_env'] or None
     seed = case.get('seed')
     if isinstance(seed, int) and seed % 199 == 11:
-        return 'opt' if (seed // 199) % 2 else 'clocale'
+        return ('clocale', 'opt', 'wignore', 'werror')[(seed // 199) % 4]
     return None
+
+
+ENV_TEXT = {'opt': 'python -O', 'clocale': 'LC_ALL=C, no UTF-8 mode', 'wignore': 'python -W ignore',
+            'werror': 'python -W error::UserWarning'}
 
 
 def run_in_child(pid, case, mode):
@@ -89,6 +93,12 @@ def run_in_child(pid, case, mode):
     cmd = [sys.executable]
     if mode == 'opt':
         cmd.append('-O')
+    elif mode == 'wignore':
+        # a deployment that silences warnings (PYTHONWARNINGS=ignore) ...
+        cmd += ['-W', 'ignore']
+    elif mode == 'werror':
+        # ... and one that turns them into errors
+        cmd += ['-W', 'error::UserWarning']
     else:
         env.update(LC_ALL='C', PYTHONUTF8='0', PYTHONCOERCECLOCALE='0')
         env.pop('LANG', None)
@@ -99,7 +109,7 @@ def run_in_child(pid, case, mode):
     res = json.loads(p.stdout.strip().splitlines()[-1])
     res.setdefault('probes', {})['ran_in_child_' + mode] = 1
     for v in res.get('violations', ()):
-        v['detail'] = '[interpreter environment: %s] %s' % ('python -O' if mode == 'opt' else 'LC_ALL=C, no UTF-8 mode', v.get('detail'))
+        v['detail'] = '[interpreter environment: %s] %s' % (ENV_TEXT.get(mode, mode), v.get('detail'))
     return res
 
 
